@@ -351,13 +351,14 @@ theorem fullSync_of_zero (cfg : Cfg) (p : Pair) (h : p.cell.n = 0) : p.fullSync 
 
 /-- **full_sync_is_frequency**: `sync(s,a)` on a pair with data makes the row the empirical
     frequencies and the reward the empirical mean of the recorded data -/
-theorem full_sync_is_frequency (cfg : Cfg) (w : Nat) (p : Pair) (recs : List (Nat × Rat))
+theorem full_sync_is_frequency (cfg : Cfg) (hg : cfg.sparseGeneric = false) (w : Nat) (p : Pair) (recs : List (Nat × Rat))
     (he : ExpOK w p recs) (hne : recs ≠ []) :
     (p.fullSync cfg).row.length = w ∧ (∀ i, i < w → nthQ (p.fullSync cfg).row i = freqOf recs i) ∧
     RewOK cfg (p.fullSync cfg).rew (meanOf recs) := by
   have hn : p.cell.n ≠ 0 := by rw [he.n]; simpa using hne
   unfold Pair.fullSync
   rw [if_neg hn]
+  simp only [hg, Bool.false_eq_true, if_false]
   refine ⟨by simp [he.len], fun i hi => ?_, ?_⟩
   · simp only [nthQ_map_cast, he.cnt i hi, freqOf, he.n]
   · rw [← he.spec.2.1]; exact copyRew_ok ..
@@ -430,7 +431,7 @@ theorem ModOK.sync_empty {cfg : Cfg} {w : Nat} {nr : Bool} {p : Pair} {g : Ghost
 /-- one local operation preserves the model invariant, provided the operation is well formed and
     respects the documented precondition of `sync(s,a,s1)`; the `visitSum == 1` branch needs either the
     repaired code (`n1Clear`) or a reset-free past over initialised storage -/
-theorem ModOK.step (cfg : Cfg) (w : Nat) (nr : Bool) (p : Pair) (g : Ghost) (op : LOp)
+theorem ModOK.step (cfg : Cfg) (hg : cfg.sparseGeneric = false) (w : Nat) (nr : Bool) (p : Pair) (g : Ghost) (op : LOp)
     (he : ExpOK w p g.recs) (hm : ModOK cfg w nr p g)
     (hwf : opWF w op = true) (hpre : incPreOK g op = true)
     (hc : cfg.n1Clear = true ∨ (nr = true ∧ cfg.ctorJunk = false)) :
@@ -439,7 +440,7 @@ theorem ModOK.step (cfg : Cfg) (w : Nat) (nr : Bool) (p : Pair) (g : Ghost) (op 
   have full : ∀ (p' : Pair), ExpOK w p' g.recs → g.recs ≠ [] → ∀ g' : Ghost, g'.recs = g.recs → g'.snap = g.recs → g'.pend = 0 →
       ∀ nr', ModOK cfg w nr' (p'.fullSync cfg) g' := by
     intro p' he' hne g' h1 h2 h3 nr'
-    obtain ⟨a, b, c⟩ := full_sync_is_frequency cfg w p' g.recs he' hne
+    obtain ⟨a, b, c⟩ := full_sync_is_frequency cfg hg w p' g.recs he' hne
     exact ModOK.of_synced (by rw [h1]; exact hne) (by rw [h1, h2]) h3 a (by rw [h1]; exact b) (by rw [h1]; exact c)
   cases op with
   | nop => simpa [Pair.step, Ghost.step, isReset] using hm
@@ -605,7 +606,7 @@ def wfAll (w : Nat) (h : List LOp) : Bool := h.all (opWF w)
   | cons op t ih => simp only [Pair.run, List.foldl_cons] at ih ⊢; rw [ih]; simp
 
 /-- both invariants along a whole local history -/
-theorem Inv.run (cfg : Cfg) (w : Nat) (h : List LOp) : ∀ (nr : Bool) (p : Pair) (g : Ghost),
+theorem Inv.run (cfg : Cfg) (hg : cfg.sparseGeneric = false) (w : Nat) (h : List LOp) : ∀ (nr : Bool) (p : Pair) (g : Ghost),
     ExpOK w p g.recs → ModOK cfg w nr p g → wfAll w h = true → incPre g h = true →
     (cfg.n1Clear = true ∨ (nr = true ∧ noReset h = true ∧ cfg.ctorJunk = false)) →
     ExpOK w (p.run cfg h) (g.run h).recs ∧ ModOK cfg w (nr && noReset h) (p.run cfg h) (g.run h) := by
@@ -619,7 +620,7 @@ theorem Inv.run (cfg : Cfg) (w : Nat) (h : List LOp) : ∀ (nr : Bool) (p : Pair
       rcases hc with h | ⟨a, _, c⟩
       · exact Or.inl h
       · exact Or.inr ⟨a, c⟩
-    have hm' := ModOK.step cfg w nr p g op he hm hwf.1 hpre.1 hc1
+    have hm' := ModOK.step cfg hg w nr p g op he hm hwf.1 hpre.1 hc1
     have he' := ExpOK.step cfg w p g op he
     have hc2 : cfg.n1Clear = true ∨ ((nr && !isReset op) = true ∧ noReset t = true ∧ cfg.ctorJunk = false) := by
       rcases hc with h | ⟨a, b, c⟩
@@ -644,7 +645,7 @@ theorem Inv.run (cfg : Cfg) (w : Nat) (h : List LOp) : ∀ (nr : Bool) (p : Pair
     Hypothesis forced by the proof: the `visitSum == 1` branch of `sync(s,a,s1)` as written is only
     right on a default row — so either the repaired branch (`n1Clear`), or no `reset` in the history and
     no uninitialised constructor storage. -/
-theorem model_mirrors_history (cfg : Cfg) (w dfl idx : Nat) (h : List LOp)
+theorem model_mirrors_history (cfg : Cfg) (hg : cfg.sparseGeneric = false) (w dfl idx : Nat) (h : List LOp)
     (hwf : wfAll w h = true) (hpre : incPre Ghost.init h = true)
     (hc : cfg.n1Clear = true ∨ (noReset h = true ∧ cfg.ctorJunk = false)) :
     let p := (Pair.init w dfl idx).run cfg h
@@ -659,7 +660,7 @@ theorem model_mirrors_history (cfg : Cfg) (w dfl idx : Nat) (h : List LOp)
     rcases hc with a | ⟨a, b⟩
     · exact Or.inl a
     · exact Or.inr ⟨rfl, a, b⟩
-  obtain ⟨he, hm⟩ := Inv.run cfg w h true (Pair.init w dfl idx) Ghost.init
+  obtain ⟨he, hm⟩ := Inv.run cfg hg w h true (Pair.init w dfl idx) Ghost.init
     (by simpa [Ghost.init] using ExpOK.init w dfl idx) (ModOK.init cfg w dfl idx) hwf hpre hc'
   refine ⟨he.spec, fun hs => ⟨hm.mRow hs, hm.mRew hs⟩, fun hj hs => ?_, fun h0 hne => ?_⟩
   · have := hm.dflt hj hs
@@ -669,12 +670,12 @@ theorem model_mirrors_history (cfg : Cfg) (w dfl idx : Nat) (h : List LOp)
     · exact e
 
 /-- the same conclusion in the form the driver evaluates: every row entry equals `specRow` -/
-theorem model_row_eq_specRow (cfg : Cfg) (w dfl idx : Nat) (h : List LOp)
+theorem model_row_eq_specRow (cfg : Cfg) (hg : cfg.sparseGeneric = false) (w dfl idx : Nat) (h : List LOp)
     (hwf : wfAll w h = true) (hpre : incPre Ghost.init h = true)
     (hc : cfg.n1Clear = true ∨ (noReset h = true ∧ cfg.ctorJunk = false)) (hj : cfg.ctorJunk = false) :
     ∀ i, i < w → nthQ ((Pair.init w dfl idx).run cfg h).row i = specRow w dfl (Ghost.init.run h) i := by
   intro i hi
-  obtain ⟨_, h2, h3, _⟩ := model_mirrors_history cfg w dfl idx h hwf hpre hc
+  obtain ⟨_, h2, h3, _⟩ := model_mirrors_history cfg hg w dfl idx h hwf hpre hc
   unfold specRow
   by_cases e : (Ghost.init.run h).snap = []
   · obtain ⟨hr, _⟩ := h3 hj e
@@ -750,14 +751,15 @@ theorem incSync_junk_irrelevant (cfg : Cfg) (j' : Nat → Nat → Rat) (p : Pair
     p.incSync { cfg with junk := j' } s1 = p.incSync cfg s1 := by
   unfold Pair.incSync Pair.fullSync copyRew; rfl
 
-theorem fullSync_congr (c1 c2 : Cfg) (h : c1.rewTol = c2.rewTol) (p : Pair) : p.fullSync c1 = p.fullSync c2 := by
-  unfold Pair.fullSync copyRew; rw [h]
+theorem fullSync_congr (c1 c2 : Cfg) (h : c1.rewTol = c2.rewTol) (hs : c1.sparseGeneric = c2.sparseGeneric) (p : Pair) :
+    p.fullSync c1 = p.fullSync c2 := by
+  unfold Pair.fullSync copyRew; rw [h, hs]
 
-theorem ctor_congr (c1 c2 : Cfg) (h : c1.rewTol = c2.rewTol) (hj1 : c1.ctorJunk = false) (hj2 : c2.ctorJunk = false)
+theorem ctor_congr (c1 c2 : Cfg) (h : c1.rewTol = c2.rewTol) (hs : c1.sparseGeneric = c2.sparseGeneric) (hj1 : c1.ctorJunk = false) (hj2 : c2.ctorJunk = false)
     (b : Bool) (p : Pair) : p.ctor c1 b = p.ctor c2 b := by
   unfold Pair.ctor
   simp only [hj1, hj2, Bool.false_eq_true, if_false]
-  rw [fullSync_congr c1 c2 h]
+  rw [fullSync_congr c1 c2 h hs]
 
 /-- Full statement (does NOT hold for the dense constructor as written, see the counterexample below):
       `∀ cfg j' p h, p.run { cfg with junk := j' } h = p.run cfg h`
@@ -773,7 +775,7 @@ theorem ctor_independent_of_junk_partial (cfg : Cfg) (hj : cfg.ctorJunk = false)
     have : p.step { cfg with junk := j' } op = p.step cfg op := by
       cases op with
       | ctor b =>
-        exact ctor_congr { cfg with junk := j' } cfg rfl hj hj b p
+        exact ctor_congr { cfg with junk := j' } cfg rfl rfl hj hj b p
       | sync => simp [Pair.step, fullSync_junk_irrelevant]
       | syncInc s1 => simp [Pair.step, incSync_junk_irrelevant]
       | _ => rfl
@@ -781,12 +783,13 @@ theorem ctor_independent_of_junk_partial (cfg : Cfg) (hj : cfg.ctorJunk = false)
 
 /-- even with uninitialised storage, the row of a pair that has data when the model is constructed
     with `sync = true` does not depend on the junk (the full sync overwrites the whole row) -/
-theorem ctor_visited_independent_of_junk (cfg : Cfg) (j' : Nat → Nat → Rat) (p : Pair) (hn : p.cell.n ≠ 0) :
-    p.ctor { cfg with junk := j' } true = p.ctor cfg true := by
-  simp [Pair.ctor, Pair.fullSync, hn, copyRew]
+theorem ctor_visited_independent_of_junk (cfg : Cfg) (hg : cfg.sparseGeneric = false) (j' : Nat → Nat → Rat) (p : Pair)
+    (hn : p.cell.n ≠ 0) : p.ctor { cfg with junk := j' } true = p.ctor cfg true := by
+  simp [Pair.ctor, Pair.fullSync, hn, copyRew, hg]
 
 /-- the configuration of the dense model as written, with junk value `7` -/
-def cfgAsWritten : Cfg := { period := 10000, n1Clear := false, ctorJunk := true, junk := fun _ _ => 7, rewTol := none }
+def cfgAsWritten : Cfg :=
+  { period := 10000, n1Clear := false, ctorJunk := true, junk := fun _ _ => 7, rewTol := none, sparseGeneric := false }
 
 /-- **ctor_junk_counterexample** (finding C07-ctor-uninit, replayed on the library by harness case 0):
     S = 2, one action, pair (s=1) never visited, model constructed with `sync = true`:
@@ -818,6 +821,16 @@ theorem sparse_reward_lag_counterexample :
   · norm_num [Pair.run, Pair.step, Pair.init, Cell.record, Cell.init, Pair.fullSync, Pair.incSync, cfgAsWritten, copyRew,
       bump, setQ, unit, unitFrom, nthN, nthQ, List.replicate, absQ]
   · norm_num [Ghost.run, Ghost.step, Ghost.init, meanOf, sumR]
+
+/-- **sparse_generic_first_sync_counterexample** (finding C07-sparse-generic-sync, harness case 9): the
+    element-wise branch of `SparseMaximumLikelihoodModel::sync(s,a)` (experience without Eigen tables) only
+    writes visited cells and clears the identity entry only when `visitSum == 1`: a first sync after two
+    records `(·,1) (·,2)` leaves `[1, 1/2, 1/2]`. -/
+theorem sparse_generic_first_sync_counterexample :
+    let cfg : Cfg := { cfgAsWritten with sparseGeneric := true, ctorJunk := false }
+    ((Pair.init 3 0 0).run cfg [.record 1 1, .record 2 2, .sync]).row = [1, 1/2, 1/2] := by
+  norm_num [Pair.run, Pair.step, Pair.init, Cell.record, Cell.init, Pair.fullSync, cfgAsWritten, copyRew,
+    bump, setQ, unit, unitFrom, writeVisited, List.replicate]
 
 /-! ## §6 from one pair to a table -/
 
@@ -878,7 +891,7 @@ theorem world_ts (cfg : Cfg) (wd : World) (h : List Op) :
     after any sequence of calls, for every pair `i` whose projected history is well formed and respects the
     precondition of the incremental sync, the conclusions of `model_mirrors_history` hold for that pair,
     and `timesteps` counts the records since the last reset. -/
-theorem world_mirrors_history (cfg : Cfg) (np w : Nat) (dflOf : Nat → Nat) (h : List Op) (i : Nat) (hi : i < np)
+theorem world_mirrors_history (cfg : Cfg) (hg : cfg.sparseGeneric = false) (np w : Nat) (dflOf : Nat → Nat) (h : List Op) (i : Nat) (hi : i < np)
     (hwf : wfAll w (h.map (Op.project i)) = true) (hpre : incPre Ghost.init (h.map (Op.project i)) = true)
     (hc : cfg.n1Clear = true ∨ (noReset (h.map (Op.project i)) = true ∧ cfg.ctorJunk = false)) :
     ((World.init np w dflOf).run cfg h).ts = tsOf h ∧
@@ -890,7 +903,7 @@ theorem world_mirrors_history (cfg : Cfg) (np w : Nat) (dflOf : Nat → Nat) (h 
       (cfg.ctorJunk = false → g.snap = [] → p.row = unit w (dflOf i) ∧ p.rew = 0) ∧
       (g.pend = 0 → g.recs ≠ [] → g.snap = g.recs) := by
   refine ⟨by rw [world_ts]; rfl, _, world_pair_eq cfg np w dflOf h i hi, ?_⟩
-  exact model_mirrors_history cfg w (dflOf i) i (h.map (Op.project i)) hwf hpre hc
+  exact model_mirrors_history cfg hg w (dflOf i) i (h.map (Op.project i)) hwf hpre hc
 
 /-- hypotheses of `world_mirrors_history` are satisfiable by a non-trivial history, with the code as written
     (S = 2, A = 1: records, incremental syncs after each record of a pair, a full sync, a model constructed late) -/
